@@ -433,6 +433,7 @@ func checkC12(c *Ctx) Meta {
 		runErrflow(c, errflowCfg{
 			except: map[string]string{
 				"(*poc/wallet/keystore.KeystoreManagerForPoC).ChangePubPassphrase:(*poc/wallet/keystore.AddrManager).safelyCheckPassword#1": "inverted check: the new public passphrase must NOT be accepted as the private one, so a nil result is the failure and is turned into ErrIllegalNewPubPass",
+				"(*poc/wallet/keystore.KeystoreManagerForPoC).ChangePubPassphrase:(*poc/wallet/keystore.AddrManager).checkPassword#1":       "the same inverted check with safelyCheckPassword inlined (checkPassword, then wipe the derived key on the accepting branch)",
 			},
 			rule:  "C12-F",
 			scope: scopeF,
